@@ -370,6 +370,226 @@ package jsonata
 //@   loop 1 invariant 0 <= i && i <= N && N == rvlen(v) && arrKind(kind(v)) && canif(v) && resultSequence != nil && -1 <= $i0
 //@   loop 1 invariant forall k in [0, len(results)): (valid(results[k]) && canif(results[k]))
 
+// --- C12 / C20: calling functions with a declared signature ---------------------------------------------------------------
+// Statement (C12): a declared signature <...> makes a call fail with an argument-count or argument-type error exactly
+// when the supplied arguments do not fit it, honouring ? optional, + variadic and - context-substituted parameters;
+// missing arguments are 'no value', surplus ones are ignored (untyped functions).
+//@ func newArgCountError
+//@   props C12 C20 C09
+//@   requires f != nil
+//@   ensures result != nil && fresh(result) && result.Received == received
+//@   assigns nothing
+//@   trusted
+//@ func newArgTypeError
+//@   props C12 C20 C09
+//@   requires f != nil
+//@   ensures result != nil && fresh(result) && result.Which == which
+//@   assigns nothing
+//@   trusted
+
+//@ pred lastIsVariadic(f *lambdaCallable) = len(f.params) > 0 && f.params[len(f.params) - 1].Option == jparse.ParamVariadic
+//@ pred ctxSub(f *lambdaCallable, argc int) = argc < len(f.params) && f.params[0].Option == jparse.ParamContextable
+//@ pred argsUsable(argv []reflect.Value) = forall k in [0, len(argv)): ifaceable(argv[k])
+//@ func (*lambdaCallable).validateArgCount
+//@   props C12 C09
+//@   opaque-arith
+//@   precise-append
+//@   requires f != nil && argsUsable(argv) && ifaceable(f.context)
+//@   requires [lemma] forall k in [1, len(argv) + 1): ifaceable(argv[k - 1])
+//@   ensures [C12:count-error-has-no-arguments] r1 != nil ==> len(r0) == 0
+//@   ensures [C12:accepted-count-fits] r1 == nil ==> (len(r0) >= len(f.params) && (len(r0) > len(f.params) ==> lastIsVariadic(f)) && argsUsable(r0))
+//@   ensures [C12:exact-count-accepted] len(argv) == len(f.params) ==> (r1 == nil && len(r0) == len(argv))
+//@   ensures [C12:surplus-rejected-unless-variadic] (len(argv) > len(f.params) && !lastIsVariadic(f)) ==> r1 != nil
+//@   ensures [C12:surplus-accepted-when-variadic] (len(argv) > len(f.params) && lastIsVariadic(f)) ==> (r1 == nil && len(r0) == len(argv))
+//@   ensures [C12:context-substituted] (len(argv) < len(f.params) && f.params[0].Option == jparse.ParamContextable && r1 == nil) ==> (len(r0) >= len(argv) + 1 && r0[0] == f.context)
+//@   ensures [C12:no-substitution-otherwise] (!(len(argv) < len(f.params) && f.params[0].Option == jparse.ParamContextable) && r1 == nil) ==> (len(r0) >= len(argv) && (forall k in [0, len(argv)): r0[k] == argv[k]))
+//@   ensures [C12:missing-optional-is-no-value] (!(len(argv) < len(f.params) && f.params[0].Option == jparse.ParamContextable) && r1 == nil) ==> (forall k in [len(argv), len(r0)): !valid(r0[k]))
+//@   ensures [C12:missing-mandatory-rejected] (len(argv) < len(f.params) && f.params[0].Option != jparse.ParamContextable && (exists k in [len(argv), len(f.params)): f.params[k].Option != jparse.ParamOptional)) ==> r1 != nil
+//@   assigns elems(argv)
+//@   loop 0 invariant i == len(argv) && paramCount == len(f.params) && argc == len(old(argv))
+//@   loop 0 invariant argsUsable(argv)
+//@   loop 0 invariant len(argv) >= argc + b2i(ctxSub(f, argc)) && (len(argv) > argc + b2i(ctxSub(f, argc)) ==> len(argv) <= paramCount)
+//@   loop 0 invariant argc >= paramCount ==> argv == old(argv)
+//@   loop 0 invariant fresh(argv) || (arr(argv) == arr(old(argv)) && off(argv) == off(old(argv)) && len(argv) >= argc)
+//@   loop 0 invariant forall k in [0, argc): old(argv)[k] == old(argv[k])
+//@   loop 0 invariant frame(argv, old(argv))
+//@   loop 0 invariant !ctxSub(f, argc) ==> (forall k in [0, argc): argv[k] == old(argv[k]))
+//@   loop 0 invariant ctxSub(f, argc) ==> (argv[0] == f.context && fresh(argv))
+//@   loop 0 invariant forall k in [argc + b2i(ctxSub(f, argc)), len(argv)): (!valid(argv[k]) && f.params[k].Option == jparse.ParamOptional)
+
+// validArgType: the type letters of a parameter against the kind of an argument (bit tests on the parameter type:
+// functional table not restated - the generator models x&mask only approximately); total, no panics.
+//@ func (*lambdaCallable).validArgType
+//@   props C12 C09
+//@   requires f != nil
+//@   assigns nothing
+//@ func (*lambdaCallable).validArgType$1
+//@   props C12 C09
+//@   requires f != nil && len(p.SubParams) > 0
+//@   assigns nothing
+
+// validateArgTypes: every present argument is checked against its own parameter (the last one for the variadic
+// tail); absent ones are skipped; an array-typed parameter turns its argument into an array first; the first
+// mismatch is an argument-type error naming the 1-based position.
+//@ func (*lambdaCallable).validateArgTypes
+//@   props C12 C09
+//@   opaque-arith
+//@   requires f != nil && argsUsable(argv)
+//@   ensures [C12:type-error-has-no-arguments] r1 != nil ==> len(r0) == 0
+//@   ensures [C12:same-arguments] r1 == nil ==> (len(r0) == len(argv) && arr(r0) == arr(argv) && argsUsable(r0))
+//@   assigns elems(argv)
+//@   atif[C12:absent-argument-not-checked] "arg == undefined" iff !valid(arg)
+//@   atcall[C12:error-names-position] newArgTypeError#0 requires callee_which == i + 1
+//@   loop 0 invariant -1 <= $i0 && paramCount == len(f.params) && argsUsable(argv)
+
+// wrapVariadicArgs: the arguments from the variadic parameter's position on are collected into one array argument
+//@ func (*lambdaCallable).wrapVariadicArgs
+//@   props C12 C09
+//@   opaque-arith
+//@   precise-append
+//@   requires f != nil && len(argv) >= len(f.params) && argsUsable(argv)
+//@   ensures [C12:not-variadic-unchanged] !old(lastIsVariadic(f)) ==> result == argv
+//@   ensures [C12:variadic-tail-collected] old(lastIsVariadic(f)) ==> (len(result) == old(len(f.params)) && kind(result[old(len(f.params)) - 1]) == 23 && rvlen(result[old(len(f.params)) - 1]) == len(argv) - old(len(f.params)) + 1)
+//@   loop 0 invariant 0 <= i && i <= n && n == len(argv) - paramCount + 1 && paramCount == len(f.params) && kind(vars) == 23 && rvlen(vars) == n && canif(vars)
+
+//@ func (*lambdaCallable).validateArgs
+//@   props C12 C09
+//@   requires f != nil && argsUsable(argv) && ifaceable(f.context)
+//@   ensures [C12:untyped-takes-anything] !old(f.typed) ==> (r1 == nil && r0 == argv)
+//@   ensures [C12:count-checked-first] (old(f.typed) && ret("lambdaCallable.validateArgCount#0", 1) != nil) ==> r1 == ret("lambdaCallable.validateArgCount#0", 1)
+//@   ensures [C12:error-has-no-arguments] r1 != nil ==> len(r0) == 0
+//@   assigns heap
+
+// Lexical scoping (C12): an environment is a frame of bindings with a parent; bind writes the innermost frame only;
+// lookup finds the innermost binding of the name, 'no value' if there is none. A block evaluates in a new frame whose
+// parent is the enclosing one; an assignment binds in the current frame and has the bound value as its value; a
+// function call evaluates the body in a new frame whose parent is the frame of the *definition* site, with the
+// definition site's context item, parameters bound to the arguments (missing ones to 'no value', surplus ignored).
+//@ func newEnvironment
+//@   props C12 C09
+//@   ensures result != nil && fresh(result) && result.parent == parent && result.symbols != nil && fresh(result.symbols) && len(result.symbols) == 0
+//@   assigns nothing
+//@ func (*environment).bind
+//@   props C12 C09
+//@   requires s != nil
+//@   ensures [C12:binds-innermost-frame] s.symbols != nil && has(s.symbols, name) && s.symbols[name] == value && s.parent == old(s.parent)
+//@   ensures old(s.symbols) != nil ==> s.symbols == old(s.symbols)
+//@   assigns s.symbols, deref(s.symbols)
+//@ func (*environment).lookup
+//@   props C12 C09
+//@   requires s != nil
+//@   ensures [C12:innermost-binding-wins] has(s.symbols, name) ==> result == s.symbols[name]
+//@   ensures [C12:unbound-in-outermost-frame] (!has(s.symbols, name) && s.parent == nil) ==> !valid(result)
+//@   ensures [C12:otherwise-the-enclosing-scope] (!has(s.symbols, name) && s.parent != nil) ==> result == ret("environment.lookup#0", 0)
+//@   assigns nothing
+//@   atcall[C12:enclosing-scope] environment.lookup#0 requires callee_s == s.parent && streq(callee_name, name)
+//@ func evalVariable
+//@   props C12 C01 C09
+//@   requires node != nil && env != nil
+//@   ensures [C12:dollar-is-context] len(node.Name) == 0 ==> (r0 == data && r1 == nil)
+//@   ensures [C12:variable-is-looked-up] len(node.Name) != 0 ==> (r0 == ret("environment.lookup#0", 0) && r1 == nil)
+//@   assigns nothing
+//@   atcall[C12:by-its-name-in-the-current-scope] environment.lookup#0 requires callee_s == env && streq(callee_name, node.Name)
+//@ func evalAssignment
+//@   props C12 C09
+//@   requires node != nil && env != nil
+//@   preserves node
+//@   ensures [C12:error-propagates] ret("eval#0", 1) != nil ==> (r1 == ret("eval#0", 1) && !valid(r0))
+//@   ensures [C12:value-of-assignment] ret("eval#0", 1) == nil ==> (r1 == nil && r0 == ret("eval#0", 0))
+//@   atcall[C12:binds-in-current-scope] environment.bind#0 requires callee_s == env && streq(callee_name, node.Name) && callee_value == ret("eval#0", 0)
+//@ func evalBlock
+//@   props C12 C09
+//@   requires node != nil
+//@   preserves node
+//@   ensures [C12:error-propagates] r1 != nil ==> !valid(r0)
+//@   atcall[C12:block-opens-a-scope] newEnvironment#0 requires callee_parent == env
+//@   atcall[C12:expressions-see-the-block-scope] eval#0 requires callee_env == ret("newEnvironment#0", 0) && callee_input == data
+//@   loop 0 calls [C12:every-expression-evaluated] eval#0
+//@   loop 0 invariant -1 <= $i0 && (err == nil) && env == ret("newEnvironment#0", 0)
+//@ func (*lambdaCallable).Call
+//@   props C12 C09
+//@   opaque-arith
+//@   requires f != nil && argsUsable(argv) && ifaceable(f.context) && nn(f.body)
+//@   preserves f
+//@   ensures [C12:argument-error-propagates] ret("lambdaCallable.validateArgs#0", 1) != nil ==> (r1 == ret("lambdaCallable.validateArgs#0", 1) && !valid(r0))
+//@   ensures [C12:value-of-the-body] ret("lambdaCallable.validateArgs#0", 1) == nil ==> (r0 == ret("eval#0", 0) && r1 == ret("eval#0", 1))
+//@   atcall[C12:scope-of-the-definition-site] newEnvironment#0 requires callee_parent == f.env
+//@   atcall[C12:body-with-definition-site-context] eval#0 requires callee_node == f.body && callee_input == f.context && callee_env == ret("newEnvironment#0", 0)
+//@   atcall[C12:parameters-bound-to-arguments] environment.bind#0 requires callee_s == ret("newEnvironment#0", 0) && streq(callee_name, name) && (i < len(ret("lambdaCallable.validateArgs#0", 0)) ? callee_value == ret("lambdaCallable.validateArgs#0", 0)[i] : !valid(callee_value))
+//@   loop 0 calls [C12:every-parameter-bound] environment.bind#0
+//@   loop 0 invariant -1 <= $i0 && env == ret("newEnvironment#0", 0) && env != nil && nn(f.body) && f.body == old(f.body) && f.context == old(f.context) && argv == ret("lambdaCallable.validateArgs#0", 0)
+
+// Function values, application and chaining (C12): a lambda keeps the environment and context item of its definition
+// site; v ~> f(a) is f(v, a) on a *new* call node (the syntax tree is shared); v ~> f calls f(v); f ~> g is a new
+// chain of exactly the two functions (never an extension of an existing chain's storage); f(?, x) keeps its
+// definition-site context and environment, evaluates the non-placeholder arguments there at each call and takes the
+// placeholders from the call's arguments in order.
+//@ nonnil field jsonata.lambdaCallable.body jsonata.partialCallable.fn
+//@ func evalLambda
+//@   props C12 C09
+//@   requires node != nil
+//@   ensures [C12:closure-captures-definition-site] r1 == nil && isLambda(r0) && lambdaOf(r0).env == env && lambdaOf(r0).context == data && lambdaOf(r0).body == node.Body && !lambdaOf(r0).typed
+//@   ensures canif(r0)
+//@ func evalTypedLambda
+//@   props C12 C09
+//@   requires node != nil && node.LambdaNode != nil
+//@   ensures [C12:closure-captures-definition-site] r1 == nil && isLambda(r0) && lambdaOf(r0).env == env && lambdaOf(r0).context == data && lambdaOf(r0).typed
+//@   ensures canif(r0)
+//@ pred isLambda(v reflect.Value) = valid(v) && canif(v) && typeis(ifaceof(v), "*lambdaCallable") && dyn(ifaceof(v), "*lambdaCallable") != nil
+//@ pred lambdaOf(v reflect.Value) = dyn(ifaceof(v), "*lambdaCallable")
+//@ pred isChain(v reflect.Value) = valid(v) && canif(v) && typeis(ifaceof(v), "*chainCallable") && dyn(ifaceof(v), "*chainCallable") != nil
+
+// evalFunctionCall: the callee expression must evaluate to a function (else ErrNonCallable); a built-in is copied
+// before the call-site name and context item are set on it (built-ins are shared between evaluations); every argument
+// is evaluated, in order, on the current context and scope; the function is called with exactly these values.
+//@ func evalFunctionCall
+//@   props C12 C20 C09
+//@   opaque-arith
+//@   requires node != nil && ifaceable(data)
+//@   preserves node
+//@   ensures [C12:error-has-no-value] r1 != nil ==> !valid(r0)
+//@   ensures [C12:value-is-usable] (r1 == nil && valid(r0)) ==> canif(r0)
+//@   ensures [C12:callee-error-propagates] ret("eval#0", 1) != nil ==> r1 == ret("eval#0", 1)
+//@   ensures [C12:not-a-function] (ret("eval#0", 1) == nil && !ret("AsCallable#0", 1)) ==> evalErrIs(r1, ErrNonCallable)
+//@   assigns heap
+//@   atcall[C12:arguments-on-current-context] eval#1 requires callee_node == arg && callee_input == data && callee_env == env
+//@   atcall[C12:called-with-all-arguments] iface:Call#0 requires len(callee_arg1) == len(node.Args)
+//@   loop 0 calls [C12:every-argument-evaluated] eval#1
+//@   loop 0 invariant -1 <= $i0 && len(argv) == len(node.Args) && fn != nil
+
+//@ func evalFunctionApplication
+//@   props C12 C09 C05
+//@   precise-append
+//@   requires node != nil && ifaceable(data)
+//@   preserves node
+//@   ensures [C12:error-has-no-value] r1 != nil ==> !valid(r0)
+//@   ensures [C12:value-is-usable] (r1 == nil && valid(r0)) ==> canif(r0)
+//@   atstore[C12:chain-is-a-new-pair] jsonata.chainCallable.callables requires len(value) == 2 && fresh(value) && value[0] == f1 && value[1] == f2
+//@   atstore[C12:applied-value-is-first-argument] jparse.FunctionCallNode.Args requires fresh(value) && len(value) == len(f.Args) + 1 && value[0] == node.LHS
+//@   atcall[C12:call-on-a-new-node] evalFunctionCall#0 requires fresh(callee_node) && callee_data == data && callee_env == env
+//@   atcall[C12:value-applied-to-function] iface:Call#0 requires callee_recv == f2 && len(callee_arg1) == 1 && callee_arg1[0] == ret("eval#0", 0)
+
+//@ func evalPartial
+//@   props C12 C09
+//@   requires node != nil
+//@   preserves node
+//@   ensures [C12:error-has-no-value] r1 != nil ==> !valid(r0)
+//@   atstore[C12:partial-keeps-definition-site-context] jsonata.partialCallable.context requires value == data
+//@   atstore[C12:partial-keeps-definition-site-scope] jsonata.partialCallable.env requires value == env
+//@   atstore[C12:partial-of-the-evaluated-function] jsonata.partialCallable.fn requires value == ret("AsCallable#0", 0)
+
+// partialCallable.Call: placeholders are filled from the call's arguments in order (missing ones are 'no value'),
+// the other arguments are evaluated at the definition site's context and scope, then the function is called.
+//@ func (*partialCallable).Call
+//@   props C12 C09
+//@   opaque-arith
+//@   requires f != nil
+//@   preserves f
+//@   ensures [C12:error-has-no-value] r1 != nil ==> !valid(r0)
+//@   atcall[C12:fixed-arguments-at-definition-site] eval#0 requires callee_node == arg && callee_input == f.context && callee_env == f.env
+//@   atcall[C12:all-arguments-passed] iface:Call#0 requires callee_recv == f.fn && len(callee_arg1) == len(f.args)
+//@   loop 0 invariant -1 <= $i0 && len(args) == len(f.args) && err == nil
+
 // --- C11 / C14: literals, array and object constructors ---------------------------------------------------------------
 // JSON texts denote themselves: string / number / boolean literals evaluate to their value, null to the nil pointer
 // that marshals as null; array constructors drop absent items, keep nested array constructors as units (no
